@@ -707,6 +707,11 @@ def r07_8(ctx):
                     payload = bytes((7 * i + 1) & 0xFF for i in range(n))
                     full = n.to_bytes(pl, "little") + payload
                     cases = [(full, payload, b""), (full + b"xy", payload, b"xy")] + [(full[:k], None, None) for k in sorted({0, pl - 1, pl, len(full) - 1}) if 0 <= k < len(full)]
+                    if n == 5:
+                        # length prefixes at the edges of the prefix width (top bit set, all ones, one more than present): far more than
+                        # the bytes that follow - a signed reading of the prefix turns them into small or negative lengths
+                        for big in (1 << (8 * pl - 1), (1 << (8 * pl)) - 1, (1 << (8 * pl - 1)) + 2, n + 1):
+                            cases.append((big.to_bytes(pl, "little") + payload, None, None))
                     for data, want_v, want_rest in cases:
                         paths = px.explore(m, lambda: (sub, {"data": data}))
                         ctx.case(1)
